@@ -29,26 +29,28 @@
 (***************************************************************************)
 EXTENDS Integers, Sequences, FiniteSets, TLC
 
-CONSTANTS NF,       \* files of the recording, in time order
-          Count,    \* ringbuffer count limit (>= 1)
-          MaxLost,  \* events the watcher may lose
-          FilterTmp \* TRUE: the filter drops tmp. names (the real filter); FALSE: a broken filter (witness)
-
-VARIABLES fs,       \* fs[j] \in {"none", "open", "written", "closed", "final", "expired"}
+VARIABLES cfg,      \* never changes: [nf: files of the recording in time order, count: ringbuffer count limit (>= 1),
+                    \*   maxlost: events the watcher may lose, filtertmp: TRUE = the filter drops tmp. names (the real filter)]
+          fs,       \* fs[j] \in {"none", "open", "written", "closed", "final", "expired"}
           evq,      \* FIFO of pending events [k, j, tmp]
           lost,     \* number of events lost so far
           rbq,      \* ringbuffer queue: sequence of tracked files (ascending)
           rd,       \* reader: [listed: set, opened: set, bad: BOOLEAN (opened something incomplete)]
           last
-vars == <<fs, evq, lost, rbq, rd, last>>
+vars == <<cfg, fs, evq, lost, rbq, rd, last>>
+NF == cfg.nf
+Count == cfg.count
+MaxLost == cfg.maxlost
+FilterTmp == cfg.filtertmp
 Files == 1..NF
 
-Init == /\ fs = [j \in Files |-> "none"] /\ evq = <<>> /\ lost = 0 /\ rbq = <<>>
+SInit(c) == /\ cfg = c /\ fs = [j \in 1..c.nf |-> "none"] /\ evq = <<>> /\ lost = 0 /\ rbq = <<>>
         /\ rd = [listed |-> {}, opened |-> {}, bad |-> FALSE] /\ last = "Init"
 
 Ev(k, j, tmp) == [k |-> k, j |-> j, tmp |-> tmp]
 Emit(e) == \/ evq' = Append(evq, e) /\ lost' = lost
            \/ lost < MaxLost /\ evq' = evq /\ lost' = lost + 1
+EmitAs(e, delivered) == IF delivered THEN evq' = Append(evq, e) /\ lost' = lost ELSE evq' = evq /\ lost' = lost + 1
 
 \* ---- writer (one file at a time, in order) ----
 Live == {"open", "written", "closed"}
@@ -56,14 +58,14 @@ Cur == IF \E j \in Files : fs[j] \in Live THEN CHOOSE j \in Files : fs[j] \in Li
 NextNew == IF \E j \in Files : fs[j] = "none" THEN CHOOSE j \in Files : fs[j] = "none" /\ \A i \in Files : fs[i] = "none" => i >= j ELSE 0
 WCreate == /\ Cur = 0 /\ NextNew # 0
            /\ fs' = [fs EXCEPT ![NextNew] = "open"] /\ Emit(Ev("created", NextNew, TRUE))
-           /\ last' = "WCreate" /\ UNCHANGED <<rbq, rd>>
-WWrite == /\ Cur # 0 /\ fs[Cur] = "open" /\ fs' = [fs EXCEPT ![Cur] = "written"] /\ Emit(Ev("modified", Cur, TRUE))
-          /\ last' = "WWrite" /\ UNCHANGED <<rbq, rd>>
+           /\ last' = "WCreate" /\ UNCHANGED <<cfg, rbq, rd>>
+WWrite == /\ Cur # 0 /\ fs[Cur] \in {"open", "written"} /\ fs' = [fs EXCEPT ![Cur] = "written"] /\ Emit(Ev("modified", Cur, TRUE))
+          /\ last' = "WWrite" /\ UNCHANGED <<cfg, rbq, rd>>
 WClose == /\ Cur # 0 /\ fs[Cur] \in {"open", "written"} /\ fs' = [fs EXCEPT ![Cur] = "closed"]
-          /\ last' = "WClose" /\ UNCHANGED <<evq, lost, rbq, rd>>
+          /\ last' = "WClose" /\ UNCHANGED <<cfg, evq, lost, rbq, rd>>
 WRename == /\ Cur # 0 /\ fs[Cur] = "closed" /\ fs' = [fs EXCEPT ![Cur] = "final"]
            /\ Emit(Ev("moved", Cur, FALSE))          \* tmp.x -> x
-           /\ last' = "WRename" /\ UNCHANGED <<rbq, rd>>
+           /\ last' = "WRename" /\ UNCHANGED <<cfg, rbq, rd>>
 
 \* ---- filter + ringbuffer: handle the oldest pending event ----
 Deliverable(e) == IF FilterTmp THEN ~e.tmp ELSE TRUE
@@ -81,17 +83,19 @@ Handle ==
              /\ evq' = Tail(evq) \o [i \in 1..Cardinality(r.del) |-> Ev("deleted", 0, FALSE)]
         ELSE IF e.k = "deleted" THEN rbq' = rbq /\ fs' = fs /\ evq' = Tail(evq)
         ELSE rbq' = rbq /\ fs' = fs /\ evq' = Tail(evq)
-  /\ last' = "Handle" /\ UNCHANGED <<lost, rd>>
+  /\ last' = "Handle" /\ UNCHANGED <<cfg, lost, rd>>
 
 \* ---- reader: list, then open one by one (a vanished name is skipped) ----
 RList == /\ rd' = [listed |-> {j \in Files : fs[j] = "final"}, opened |-> {}, bad |-> rd.bad]
-         /\ last' = "RList" /\ UNCHANGED <<fs, evq, lost, rbq>>
+         /\ last' = "RList" /\ UNCHANGED <<cfg, fs, evq, lost, rbq>>
 ROpen == /\ \E j \in rd.listed \ rd.opened :
               rd' = [rd EXCEPT !.opened = @ \cup {j}, !.bad = @ \/ fs[j] \in Live]
-         /\ last' = "ROpen" /\ UNCHANGED <<fs, evq, lost, rbq>>
+         /\ last' = "ROpen" /\ UNCHANGED <<cfg, fs, evq, lost, rbq>>
 
-Next == WCreate \/ WWrite \/ WClose \/ WRename \/ Handle \/ RList \/ ROpen
-Spec == Init /\ [][Next]_vars
+\* bounded exploration: one write per file
+MCWWrite == Cur # 0 /\ fs[Cur] = "open" /\ WWrite
+Next == WCreate \/ MCWWrite \/ WClose \/ WRename \/ Handle \/ RList \/ ROpen
+\* (Init is supplied by the instantiating module: MCDrfSystem or DrfSystemTrace)
 
 \* ---- properties of the composition ----
 TypeOK == \A j \in Files : fs[j] \in {"none", "open", "written", "closed", "final", "expired"}
